@@ -131,6 +131,9 @@ theorem approvalToSimple_ren (split : Bool) (p : AProfile) (hwf : ∀ bw ∈ p, 
 /-- shared ranks list each member once -/
 def RankedWF (p : RProfile) : Prop := ∀ bw ∈ p, ∀ it ∈ bw.1, it.cands.Nodup
 
+omit hσ in
+instance (p : RProfile) : Decidable (RankedWF p) := by unfold RankedWF; infer_instance
+
 theorem cnt_renItem {it : RankItem} (hit : it.cands.Nodup) (k : Cand) :
     cnt (renItem σ it).cands (σ k) = cnt it.cands k := by
   cases it with
